@@ -378,3 +378,23 @@ def apply_audit(res: Result, a: dict, search_hint: str = ""):
     for t, ax in a.get("bad_axioms", {}).items():
         res.violation("axiom", {"theorem": t, "axioms": ax}, no_input=True)
     return [t for t in a.get("obligations", []) if t not in a.get("discharged", [])]
+
+
+def quiet_debug_logging():
+    """The library's loggers at DEBUG with a sink that formats every record and throws it away: everything the library does
+    for the sake of logging (message dumps, statistics lines, values computed for a log line) is executed as it would be in
+    a deployment that logs at DEBUG, and nothing is printed.  (A record whose lazy %-formatting fails is dropped, as the
+    standard handlers do.)"""
+    import logging
+
+    class _Sink(logging.Handler):
+        def emit(self, record):
+            try:
+                record.getMessage()
+            except Exception:  # noqa
+                pass
+    lg = logging.getLogger("diameter")
+    if not any(isinstance(h, _Sink) for h in lg.handlers):
+        lg.addHandler(_Sink())
+    lg.setLevel(logging.DEBUG)
+    lg.propagate = False
